@@ -252,8 +252,12 @@ def replay(name, ob, model, uni):
 
 
 def replay_known(k, uni):
+    kid = k.get("id", "")
+    if kid.startswith("device-"):
+        from realise import acc_model as A
+        return A.run_case(kid[len("device-"):])[0] == "differs"
     from realise import C13 as R
-    rp = R.run(k.get("id"))
+    rp = R.run(kid)
     return bool(rp.get("confirmed"))
 
 
@@ -261,3 +265,28 @@ def bounded(uni, tier, seed):
     """bounded stand-in used only when a deductive obligation is undecided"""
     from realise import C13 as R
     return R.run("other")
+
+
+def extra(uni, tier, seed):
+    """BOUNDED stand-in (never counted as proved): the region wrapped by the
+    real ACCDataTrans is executed on a separate device memory with exactly
+    the generated copyin / copyout / copy movements (realise/acc_model.py)
+    and the host arrays are compared with a host-only run"""
+    from pyvc.runner import Extra
+    from realise import acc_model as A
+    out, n_ok = [], 0
+    for cid, verdict, detail, src in A.cases():
+        if verdict == "differs":
+            out.append(Extra(
+                f"bounded#device-memory[{cid}]", False, detail[:300],
+                bounded=True, kind="bounded run-time contract: region "
+                "executed on device memory with the generated clauses",
+                replay={"confirmed": True, "case": cid,
+                        "input": {"source": src}, "observed": detail}))
+        else:
+            n_ok += 1
+    out.append(Extra("bounded#device-memory", True,
+                     f"{n_ok} regions give the host-only result",
+                     kind="bounded run-time contract: 8 regions on the "
+                          "device-memory model", count=n_ok, bounded=True))
+    return out
